@@ -33,8 +33,9 @@ Proof. intros E H. apply truthful_b_complete in H. congruence. Qed.
 Lemma functional_b_false s : functional_b s = false -> ~ uid_functional s.
 Proof. intros E H. apply functional_b_complete in H. congruence. Qed.
 
-(** witnesses of the finding classes (all on the store of a new account whose
-    default mailboxes were created at second 100) *)
+(** witnesses (all on the store of a new account whose default mailboxes were
+    created at second 100): of the four repaired classes of the first round, and
+    of the remaining class validity_same_second *)
 Definition A : str := S_ "A".
 Definition TRASH : str := S_ "Trash".
 Definition DELETED : str := S_ "\Deleted".
@@ -48,21 +49,12 @@ Definition w_rename_inbox : list op := [OAppend INBOX []; ORename INBOX A 101].
 Definition w_same_second : list op :=
   [OCreate A 101; OAppend A []; ODelete A; OCreate A 101; OAppend A []].
 
-Lemma refuted_copy_stale :
-  exists h, classify (init 100) h = Some CCopyStale /\ ~ uidnext_truthful (run h (init 100)).
-Proof. exists w_copy_stale. split; [vm_compute; reflexivity | apply truthful_b_false; vm_compute; reflexivity]. Qed.
-
-Lemma refuted_copy_reuse :
-  exists h, classify (init 100) h = Some CCopyReuse /\ ~ uid_functional (run h (init 100)).
-Proof. exists w_copy_reuse. split; [vm_compute; reflexivity | apply functional_b_false; vm_compute; reflexivity]. Qed.
-
-Lemma refuted_move :
-  exists h, classify (init 100) h = Some CMoveMaxUid /\ ~ uidnext_truthful (run h (init 100)).
-Proof. exists w_move. split; [vm_compute; reflexivity | apply truthful_b_false; vm_compute; reflexivity]. Qed.
-
-Lemma refuted_rename_inbox :
-  exists h, classify (init 100) h = Some CRenameInbox /\ ~ uidnext_truthful (run h (init 100)).
-Proof. exists w_rename_inbox. split; [vm_compute; reflexivity | apply truthful_b_false; vm_compute; reflexivity]. Qed.
+(** regression: the first-round witnesses of the repaired classes are now clean
+    histories on which the property holds *)
+Lemma repaired_witnesses_fine :
+  forallb (fun h => clean (init 100) h && spec_b (run h (init 100)))
+          [w_copy_stale; w_copy_reuse; w_move; w_rename_inbox] = true.
+Proof. vm_compute. reflexivity. Qed.
 
 Lemma refuted_same_second :
   exists h, classify (init 100) h = Some CSameSecond /\ ~ uid_functional (run h (init 100)).
